@@ -28,7 +28,7 @@ RUSTFLAGS = "--cfg %s --check-cfg cfg(%s)" % (GUARD, GUARD)
 NCPU = os.cpu_count() or 4
 
 FORBIDDEN = re.compile(
-    r"\b(Admitted|admit|Axiom|Axioms|Parameter|Parameters|Conjecture|Conjectures|Hypothesis|Hypotheses|Variable|Variables)\b"
+    r"\b(Admitted|admit|Axiom|Axioms|Parameter|Parameters|Conjecture|Conjectures|Hypothesis|Hypotheses|Variable|Variables|Context)\b"
     r"|Unset\s+Guard|bypass_check|Admit\s+Obligations|-type-in-type|impredicative-set|Unset\s+Universe\s+Checking|Unset\s+Positivity"
 )
 # axioms of the standard library that a theorem may depend on (each named in DESIGN.md section 9)
@@ -104,7 +104,7 @@ def section_aware_forbidden(path):
         m = re.match(r"\s*End\s+(\w+)", l2)
         for mm in FORBIDDEN.finditer(l2):
             w = mm.group(0)
-            if re.match(r"(Variable|Variables|Hypothesis|Hypotheses)$", w) and depth > 0:
+            if re.match(r"(Variable|Variables|Hypothesis|Hypotheses|Context)$", w) and depth > 0:
                 continue
             hits.append((ln, w))
         if m and depth > 0:
@@ -147,6 +147,7 @@ class Check:
         self.known_hits = []
         self.notes = []
         self._distinct = set()
+        self._distinct_extra = 0
         self.deep = False
 
     # ------------------------------------------------------------------ utils
@@ -167,6 +168,11 @@ class Check:
         self.cov["evaluations"] += evaluations
         for k in distinct_keys:
             self._distinct.add(hashlib.blake2b(repr(k).encode("utf8", "replace"), digest_size=8).digest())
+
+    def add_measured(self, evaluations, distinct_nontrivial):
+        """counts measured by the harness itself (it de-duplicates by hashing its cases)"""
+        self.cov["evaluations"] += int(evaluations)
+        self._distinct_extra += int(distinct_nontrivial)
 
     def sample(self, s, cap=6):
         if len(self.cov["samples"]) < cap:
@@ -291,6 +297,42 @@ class Check:
             futs = [ex.submit(self.coq_eval, "%s_%d" % (name, i), b, requires, timeout) for i, b in enumerate(bodies)]
             return [f.result() for f in futs]
 
+    def coq_failing(self, name, case_terms, requires, check_fn="check_case", case_type="case", per_shard=40, timeout=1200, prelude=""):
+        """Evaluate `check_fn : case_type -> bool` (a Gallina function of the property's Corr.v) on every case term
+        (strings of Coq syntax) with vm_compute, sharded over coqc processes.
+        Returns the sorted list of indices of failing cases, or None when the evaluation itself broke
+        (recorded as a broken tie)."""
+        n = len(case_terms)
+        if n == 0:
+            return []
+        nshard = min(NCPU, max(1, n // per_shard))
+        idxs = [list(range(i, n, nshard)) for i in range(nshard)]
+        bodies = []
+        for ids in idxs:
+            b = "Local Open Scope N_scope.\n" + prelude + "\n"
+            b += "Definition cases__ : list (%s) := [\n%s].\n" % (case_type, ";\n".join(case_terms[i] for i in ids))
+            b += ("Definition failing__ := (fix go (cs : list (%s)) (i : N) : list N := match cs with [] => [] | c :: r => "
+                  "if %s c then go r (i + 1) else i :: go r (i + 1) end) cases__ 0.\n" % (case_type, check_fn))
+            b += "Eval vm_compute in failing__.\n"
+            bodies.append(b)
+        results = self.coq_eval_shards(name, bodies, requires, timeout)
+        failing = []
+        bad = False
+        for (rc, out), ids in zip(results, idxs):
+            if rc != 0:
+                self.tie_broken("correspondence evaluation %s did not compile/finish (model or checker broken)" % name, out[-3000:])
+                bad = True
+                continue
+            m = re.search(r"=\s*\[(.*?)\]\s*:\s*list N", out, re.S)
+            if not m:
+                self.tie_broken("unparsable correspondence output for %s" % name, out[-1000:])
+                bad = True
+                continue
+            for x in re.findall(r"\d+", m.group(1)):
+                failing.append(ids[int(x)])
+        self.cov["traces_validated_against_impl"] += n
+        return None if bad else sorted(failing)
+
     # --------------------------------------------------------------- verdicts
     def tie_broken(self, what, detail=""):
         self.broken.append({"kind": "tie", "what": what, "detail": detail})
@@ -342,7 +384,7 @@ class Check:
             else:
                 print("VIOLATION property=%s replay=%s %s no-failing-input-found" % (
                     self.prop, replay_path, self.broken[0]["what"][:200].replace("\n", " ")), flush=True)
-        self.cov["distinct_nontrivial"] = len(self._distinct)
+        self.cov["distinct_nontrivial"] = len(self._distinct) + self._distinct_extra
         self.cov["rule"] = rule or self.cov["rule"]
         self.cov["explanation"] = explanation or self.cov["explanation"]
         self.cov["trusted_base"] = list(trusted_base)
